@@ -28,7 +28,7 @@ FUNCTIONS = ["xdsl.dialects.builtin.FloatData.__eq__/__hash__", "dataclass __eq_
 ASSUMPTIONS = ["CPython hash(float) contract: numerically equal non-NaN floats hash equal, a NaN hashes by object identity (modelled as an arbitrary value per call)",
                "hash(bytes) is a function of the bytes (uninterpreted function)", "struct.pack('<d') is the IEEE-754 bit pattern (vx/shim_struct.py)",
                "hashes of composite (dataclass) attributes are tuple hashes of component hashes: component consistency suffices (argument, not a query)"]
-OUTSIDE = ["dialect attributes with hand-written __eq__/__hash__ other than FloatData", "attributes parsed from text in different contexts (UnregisteredAttr)", "string payloads (see C06)"]
+OUTSIDE = ["FloatAttr construction (rounding to the type) beyond the 8 enumerated exactly-representable values x 12 float types of the FloatAttr.ctor family; FNUZ / E8M0 formats", "dialect attributes with hand-written __eq__/__hash__ other than FloatData", "attributes parsed from text in different contexts (UnregisteredAttr)", "string payloads (see C06)"]
 STUBS = ["hash(float)/hash(bytes) contract stubs", "struct.pack"]
 
 
@@ -43,6 +43,8 @@ def obligations(tier):
     for t in ("f32", "f64"):
         for p in ("refl", "sym", "eq_iff_bits", "trans"):
             obs.append({"id": f"C08/FloatAttr.{t}/{p}", "kind": "fattr", "prop": p, "t": t})
+    for t in CTOR_TYPES:
+        obs.append({"id": f"C08/FloatAttr.ctor/{t}", "kind": "fctor", "t": t, "prop": "ctor"})
     for cls in ("IntAttr", "IntegerAttr.i8", "IntegerAttr.i64", "IntegerAttr.index", "IntegerType", "ArrayAttr.IntAttr", "Unregistered.attr", "Unregistered.type", "Strided.offset", "DenseArray.payload"):
         for p in ("refl", "sym", "trans", "eq_iff_payload", "eq_implies_hash"):
             obs.append({"id": f"C08/{cls}/{p}", "kind": "iattr", "cls": cls, "prop": p})
@@ -89,8 +91,39 @@ def b(x):
     return as_z3_bool(x)
 
 
+CTOR_TYPES = ["Float16Type", "BFloat16Type", "Float32Type", "Float64Type", "FloatTF32Type", "Float8E5M2Type", "Float8E4M3Type", "Float8E4M3FNType", "Float8E3M4Type", "Float6E2M3FNType",
+              "Float6E3M2FNType", "Float4E2M1FNType"]
+CTOR_VALS = [0.0, -0.0, 1.0, -1.0, 2.0, 0.5, -0.5, 4.0]  # exactly representable and pairwise different (as value or sign) in every listed format
+
+
+def ctor_check(tname, i, j):
+    """FloatAttr built by the REAL constructor: two attributes are equal exactly when they were built from the same value, equal ones hash alike,
+    and building the first value again after the second gives an attribute equal to the first (no dependence on construction history)"""
+    T = getattr(builtin, tname)()
+    vi, vj = CTOR_VALS[i], CTOR_VALS[j]
+    A = FloatAttr(vi, T)
+    B = FloatAttr(vj, T)
+    A2 = FloatAttr(vi, T)
+    if not (A == A2 and hash(A) == hash(A2)):
+        return {"prop": False, "detail": f"FloatAttr({vi!r}, {tname}) built twice gives different attributes"}
+    if (A == B) != (i == j) or (B == A) != (i == j):
+        return {"prop": False, "detail": f"FloatAttr({vi!r}) == FloatAttr({vj!r}) of {tname} is {A == B}"}
+    if A == B and hash(A) != hash(B):
+        return {"prop": False, "detail": "equal attributes hash differently"}
+    import math
+
+    if math.copysign(1.0, A.value.data) != math.copysign(1.0, vi) or A.value.data != vi:
+        return {"prop": False, "detail": f"FloatAttr({vi!r}, {tname}) holds {A.value.data!r}"}
+    return True
+
+
 def run(ob, tier, stats, exclude):
     k = ob["kind"]
+    if k == "fctor":
+        def h(ex):
+            i, j = SymInt.var("i", 0, len(CTOR_VALS) - 1), SymInt.var("j", 0, len(CTOR_VALS) - 1)
+            return ctor_check(ob["t"], i.concretize(), j.concretize())
+        return decide(h, timeout_ms=20000, budget_s=120, stats=stats, exclude=exclude, ob=ob, max_paths=6000)
     lo, hi = (-8, 8) if tier == "quick" else (-31, 32)
 
     if k == "fdata":
@@ -212,6 +245,9 @@ def bits(x):
 
 def replay(ob, inputs):
     k, p = ob["kind"], ob["prop"]
+    if k == "fctor":
+        v = ctor_check(ob["t"], int(inputs.get("i", 0)), int(inputs.get("j", 0)))
+        return {"violates": v is not True, "observed": v["detail"] if v is not True else "agrees"}
     try:
         if k in ("fdata", "fattr"):
             T = f64 if k == "fdata" or ob.get("t") == "f64" else f32
